@@ -193,7 +193,7 @@ Proof.
       reflexivity. }
     fold nc. rewrite (Hall (zrange nc)) by (intros c Hc; apply in_zrange in Hc; exact Hc). cbn [obind]. f_equal.
     assert (Epl : map (fun c => nth (Z.to_nat c) planes []) (zrange nc) = planes).
-    { unfold zrange. rewrite map_map. rewrite <- Hnp. clear. induction planes as [|x l IH] using rev_ind; [reflexivity|].
+    { unfold zrange, nc. rewrite map_map. rewrite <- Hnp. clear. induction planes as [|x l IH] using rev_ind; [reflexivity|].
       rewrite app_length. cbn [length]. rewrite Nat.add_1_r, seq_S, map_app. cbn [map]. rewrite Nat.add_0_l.
       f_equal.
       - rewrite <- IH at 2. apply map_ext_in. intros i Hi. apply in_seq in Hi. rewrite Nat2Z.id. apply app_nth1. lia.
@@ -202,3 +202,52 @@ Proof.
 Qed.
 
 End Main.
+
+(* ---------- the statement, the partial theorem, what is missing ---------- *)
+
+(* The full statement: for every parameter tuple in scope (1 <= w, h <= 32768, 1..4 components,
+   precision 1..16, signed or not, 0..6 levels, code-block sizes 4..64 with area <= 4096, MCT on or
+   off, the five progression orders; ONE layer, default precincts, style 0) and every sample array
+   in range, the encoder model produces a tile and the decoder model returns the packed image.
+   (The tile-level functions take the geometry as parameters; the geometry the decoder REPORTS
+   comes from the main header - SIZ/COD written by Framing.FrmWriters and read back by the
+   parser models - which is not part of this composition.) *)
+Definition pipe_roundtrip_statement : Prop :=
+  forall p samples, pp_scope p -> samples_ok p samples ->
+    exists tile, pipe_encode_tile p (pack_image p samples) = Ok tile /\
+                 pipe_decode_tile p tile = Ok (pack_image p samples).
+
+(* Proved: the statement under the two named hypotheses.
+   Missing for the full statement:
+   - hyp_coeff_fit for 2*levels + precision > 24: needs a sharper growth bound of the multilevel
+     5/3 transform than DwtGrowth.fwd53_ml_bound (4^levels), e.g. the BIBO gain of the cascaded
+     analysis filters (< 2^4 for any level count would do for precision 16 with RCT);
+   - hyp_t2_encodes: totality of the packet-header encoder model (tag-tree encode, numpasses
+     code for 3n-2 <= 73 passes, Lblock) on the cells built here, and an upper bound of 65535
+     bytes on the MQ coder's output for a block of <= 4096 samples and <= 25 bit-planes. *)
+Theorem pipe_roundtrip_partial : forall p, pp_scope p -> forall samples, samples_ok p samples ->
+  let pix := pack_image p samples in
+  hyp_coeff_fit p pix -> hyp_t2_encodes p pix ->
+  exists tile, pipe_encode_tile p pix = Ok tile /\ pipe_decode_tile p tile = Ok pix.
+Proof. exact pipe_roundtrip_section. Qed.
+
+(* the arithmetic side condition is a theorem for 2*levels + precision <= 24 (all images up to
+   12 bits with any level count; 16 bits up to 4 levels) *)
+Lemma hyp_coeff_fit_growth : forall p samples, pp_scope p -> samples_ok p samples ->
+  2 * pp_levels p + pp_prec p <= 24 -> hyp_coeff_fit p (pack_image p samples).
+Proof.
+  intros p samples Hsc Hsm Hs coeffs Ec.
+  destruct (front_ok p samples Hsc Hsm) as [planes [Efront [Hok _]]].
+  unfold pipe_coeffs in Ec. rewrite Efront in Ec. cbn [obind] in Ec. injection Ec as <-.
+  apply (coeff_fit_growth p Hsc planes Hok Hs).
+Qed.
+
+Theorem pipe_roundtrip_partial_growth : forall p, pp_scope p -> forall samples, samples_ok p samples ->
+  2 * pp_levels p + pp_prec p <= 24 ->
+  let pix := pack_image p samples in
+  hyp_t2_encodes p pix ->
+  exists tile, pipe_encode_tile p pix = Ok tile /\ pipe_decode_tile p tile = Ok pix.
+Proof.
+  intros p Hsc samples Hsm Hs pix Ht2. apply (pipe_roundtrip_section p Hsc samples Hsm); [|exact Ht2].
+  apply hyp_coeff_fit_growth; assumption.
+Qed.
